@@ -216,8 +216,9 @@ def sessions_from_behaviour(beh):
 # --------------------------------------------------------------------------------------
 # scenarios
 # --------------------------------------------------------------------------------------
-def scn(name, aggs, calls, init="absent", prior=(), normal_exit=True, same_dir=True):
-    return dict(aggs=aggs, calls=calls, init=init, prior=list(prior), normal_exit=normal_exit, same_dir=same_dir, name=name)
+def scn(name, aggs, calls, init="absent", prior=(), normal_exit=True, same_dir=True, out_names=None, workers="threads"):
+    return dict(aggs=aggs, calls=calls, init=init, prior=list(prior), normal_exit=normal_exit, same_dir=same_dir, name=name,
+                out_names=out_names or {}, workers=workers)
 
 
 C16_SCENARIOS = [
@@ -407,6 +408,11 @@ SIBLING_SCENARIOS = [
     scn("siblings-same-dir", ["A", "B"], [E("A", "a"), E("B", "a"), E("A", "b")], same_dir=True),
     scn("siblings-other-dir", ["A", "B"], [E("A", "a"), E("B", "a"), E("B", "b")], same_dir=False),
     scn("siblings-same-dir-rows", ["A", "B"], [E("A", "a"), E("B", "a")], init="rows", prior=["z"], same_dir=True),
+    # output file names that differ only in characters of the extension / in a suffix
+    scn("siblings-names-t-v", ["A", "B"], [E("A", "a"), E("B", "a"), E("A", "b")], out_names={"A": "scores_t.tsv", "B": "scores_v.tsv"}),
+    scn("siblings-names-plural", ["A", "B"], [E("A", "a"), E("B", "a"), E("B", "b")], out_names={"A": "unet.tsv", "B": "unets.tsv"}),
+    scn("siblings-names-prefix", ["A", "B"], [E("A", "a"), E("B", "a")], out_names={"A": "run.tsv", "B": "run_panoptica_aggregator_tmp.tsv"}),
+    scn("siblings-names-dots", ["A", "B"], [E("A", "a"), E("B", "a")], out_names={"A": "res.v1.tsv", "B": "res.v2.tsv"}),
 ]
 MC17 = ["MC_Agg_c17_absent.cfg", "MC_Agg_c17_empty.cfg", "MC_Agg_c17_header.cfg", "MC_Agg_c17_rows.cfg", "MC_Agg_c17_three.cfg",
         "MC_Agg_c17_sibling.cfg"]
